@@ -236,8 +236,14 @@ impl<'a, D: DependencyProvider> Encoder<'a, D> {
             })
         {
             // If the dependencies are already available for the
-            // candidate, queue the candidate for processing.
-            if self.cache.are_dependencies_available_for(candidate) {
+            // candidate, queue the candidate for processing. A candidate that has
+            // already been assigned false is skipped: its clauses would be trivially
+            // satisfied and the clause constructors do not accept a parent that is
+            // assigned false. If it ever becomes part of a partial solution its
+            // dependencies are encoded at that point.
+            if self.cache.are_dependencies_available_for(candidate)
+                && self.state.decision_tracker.assigned_value(candidate_var) != Some(false)
+            {
                 self.queue_solvable(candidate.into())
             }
 
